@@ -37,6 +37,10 @@ import ClarabelProofs.Lemmas.StepInitPoint
 import ClarabelProofs.Lemmas.StepInitPointExample
 import ClarabelProofs.Lemmas.StepPass
 import ClarabelProofs.Lemmas.StepPsdContracts
+import ClarabelProofs.Lemmas.StepPassMu
+import ClarabelProofs.Lemmas.StepPassMuZero
+import ClarabelProofs.Lemmas.StepPassMuStart
+import ClarabelProofs.Lemmas.StepPassMuExample
 import Mathlib.Tactic.NormNum
 import Mathlib.Tactic.Positivity
 
@@ -1552,6 +1556,229 @@ example : C16.Canonical Solver.rsExM ∧ Solver.rsExM.isTriu = true
     subst this
     simp [Matrix.mulVec, dotProduct, toFn, denseA, Solver.rsExM, Csc.toDense, Csc.col]
     try norm_num
+
+/-! ### Round 7: the aggregated complementarity of the pass (`hagg` discharged)
+
+`Solver.ConesInterior cones s z` (`Lemmas/StepPassMuLift.lean`): block by block along the cone
+layout, `s = 0` on the rows of a zero cone, `s, z > 0` on a nonnegative cone, `s, z` strictly inside
+each second-order cone.  `Solver.PassAffineStep st L L' m Δsᵃ Δzᵃ mcorr` (`Lemmas/StepPassMu.lean`):
+`(Δsᵃ, Δzᵃ)` is the `s`/`z` part of the result of the AFFINE solve of the pass `L → L'` (the calls
+`kktsystem.update`, `affine_step_rhs`, `solve(.affine)`, `calc_step_length`, `combined_step_rhs` the
+pass made, on the state it made them on, exist with these results), `mcorr` its Mehrotra factor,
+`L'.sigma` its centring parameter, and `Δsᵃ = −s − Hs Δzᵃ`.  `Solver.coneIdFn cones m`: the identity
+element of the composite cone (`0` on zero-cone rows, `1` on nonnegative rows, `(1, 0, …, 0)` on each
+second-order cone).  None of the theorems below needs the exactness hypotheses of the linear
+solves: the `Δs` rows are computed by `DefaultKKTSystem::solve` itself. -/
+
+/-- [R] **`update_scaling` of the composite cone succeeds at every interior iterate** (zero and
+nonnegative cones always do; second-order cones by C13's `soc_update_succeeds`): the
+`is_scaling_success = false` exit of a pass is not taken there. -/
+theorem scaling_succeeds_at_interior {cones : List (ConeSt ℝ)} {s z : Array ℝ} (hc : ConesFull cones)
+    (hs : s.size = numelAll cones) (hz : z.size = numelAll cones)
+    (hint : ConesInterior cones s.toList z.toList) :
+    ∃ cones', Solver.updateScaling cones s z = .ok (true, cones') :=
+  Solver.updateScaling_interior_true hc hs hz hint
+
+/-- [R] **the cones an accepted pass leaves are the Nesterov–Todd scalings of the iterate it started
+from**: `L'.S.cones = update_scaling(L.S.cones, s, z)` and, cone by cone on its rows, nonnegative:
+`w = √(s/z)`, `λ = √(s·z)`; second-order: `w` normalised, `η ≠ 0`, `W z = λ = W⁻¹ s`, `(WᵀW) z = s`
+(`Solver.NTCones`, C13's identities on the whole-solver model's cone states). -/
+theorem pass_cones_are_nt {st : Settings ℝ} {L L' : LoopSt ℝ} {n m : ℕ} (hS : PassShape L.S n m)
+    (hp : pass st L = .ok (true, L'))
+    (hint : ConesInterior L.S.cones L.S.variables.s.toList L.S.variables.z.toList) :
+    Solver.updateScaling L.S.cones L.S.variables.s L.S.variables.z = .ok (true, L'.S.cones)
+      ∧ NTCones L'.S.cones L.S.variables.s.toList L.S.variables.z.toList :=
+  Solver.pass_ntCones hS hp hint
+
+/-- [R] **`Hs z = s` at the scaling point of the pass**: the dense `Hs` block of the rescaled cones
+maps the old `z` to the old `s` (nonnegative rows `diag(s/z)`, second-order blocks `WᵀW`, zero-cone
+rows `0 = s`). -/
+theorem pass_Hs_z_eq_s {st : Settings ℝ} {L L' : LoopSt ℝ} {n m : ℕ} (hS : PassShape L.S n m)
+    (hp : pass st L = .ok (true, L'))
+    (hint : ConesInterior L.S.cones L.S.variables.s.toList L.S.variables.z.toList) :
+    hsMat L'.S.cones m *ᵥ toFn L.S.variables.z m = toFn L.S.variables.s m :=
+  Solver.pass_Hs_z_eq_s hS hp hint
+
+/-- [R] **`z · Δs_from_Δz_offset(rhs.s, z) = ⟨e, rhs.s⟩`**: the `Δs_const_term` the combined solve
+leaves in `workConic`, paired with the old `z`, is the pairing of the combined right-hand side
+`rhs.s` with the identity element `e` of the composite cone (`Σ dᵢ` on nonnegative rows, `d₀` per
+second-order cone, nothing on zero-cone rows). -/
+theorem pass_offset_dot {st : Settings ℝ} {L L' : LoopSt ℝ} {n m : ℕ} (hS : PassShape L.S n m)
+    (hp : pass st L = .ok (true, L'))
+    (hint : ConesInterior L.S.cones L.S.variables.s.toList L.S.variables.z.toList) :
+    toFn L.S.variables.z m ⬝ᵥ toFn L'.S.kktsystem.workConic m
+      = coneIdFn L'.S.cones m ⬝ᵥ toFn L'.S.stepRhs.s m :=
+  Solver.pass_offset_dot hS hp hint
+
+/-- [R] **aggregated complementarity of the combined step, retained-state form**:
+`s·Δz + z·Δs = −⟨e, rhs.s⟩` with `rhs = L'.S.stepRhs`, `(Δs, Δz)` the step left in `L'.S.stepLhs`. -/
+theorem pass_complementarity_retained {st : Settings ℝ} {L L' : LoopSt ℝ} {n m : ℕ}
+    (hS : PassShape L.S n m) (hp : pass st L = .ok (true, L'))
+    (hint : ConesInterior L.S.cones L.S.variables.s.toList L.S.variables.z.toList) :
+    toFn L.S.variables.s m ⬝ᵥ toFn L'.S.stepLhs.z m + toFn L.S.variables.z m ⬝ᵥ toFn L'.S.stepLhs.s m
+      = -(coneIdFn L'.S.cones m ⬝ᵥ toFn L'.S.stepRhs.s m) :=
+  Solver.pass_complementarity_retained hS hp hint
+
+/-- [R] **the combined right-hand side paired with `e`**: `⟨e, rhs.s⟩ = s·z + m·Δsᵃ·Δzᵃ − ν σμ`
+(`rhs.s = λ∘λ + (W⁻ᵀΔsᵃ)∘(W(mΔzᵃ)) − σμ e`; `⟨e, u∘v⟩ = u·v`, `λ·λ = s·z`, `(W⁻ᵀa)·(Wb) = a·b`;
+`Δsᵃ = 0` on zero-cone rows), `(Δsᵃ, Δzᵃ)` the affine step of the same pass, `m` its Mehrotra
+factor. -/
+theorem pass_rhs_identity {st : Settings ℝ} {L L' : LoopSt ℝ} {n m : ℕ} (hS : PassShape L.S n m)
+    (hp : pass st L = .ok (true, L'))
+    (hint : ConesInterior L.S.cones L.S.variables.s.toList L.S.variables.z.toList) :
+    ∃ (dsA dzA : Fin m → ℝ) (mcorr : ℝ), PassAffineStep st L L' m dsA dzA mcorr
+      ∧ coneIdFn L'.S.cones m ⬝ᵥ toFn L'.S.stepRhs.s m
+        = toFn L.S.variables.s m ⬝ᵥ toFn L.S.variables.z m + mcorr * (dsA ⬝ᵥ dzA)
+          - (degreeAll L.S.cones : ℝ) * (L'.sigma * L'.mu) :=
+  Solver.pass_rhs_identity hS hp hint
+
+/-- [R] **aggregated linearised complementarity of the combined step of an accepted pass** — the
+hypothesis `hagg` of `pass_mu_update_partial`, proved, with `C = m·Δsᵃ·Δzᵃ`:
+`s·Δz + z·Δs = −(s·z + m·Δsᵃ·Δzᵃ − ν σμ)` for every list of zero / nonnegative / second-order cones
+at an interior iterate. -/
+theorem pass_complementarity_aggregated {st : Settings ℝ} {L L' : LoopSt ℝ} {n m : ℕ}
+    (hS : PassShape L.S n m) (hp : pass st L = .ok (true, L'))
+    (hint : ConesInterior L.S.cones L.S.variables.s.toList L.S.variables.z.toList) :
+    ∃ (dsA dzA : Fin m → ℝ) (mcorr : ℝ), PassAffineStep st L L' m dsA dzA mcorr
+      ∧ toFn L.S.variables.s m ⬝ᵥ toFn L'.S.stepLhs.z m + toFn L.S.variables.z m ⬝ᵥ toFn L'.S.stepLhs.s m
+        = -(toFn L.S.variables.s m ⬝ᵥ toFn L.S.variables.z m + mcorr * (dsA ⬝ᵥ dzA)
+            - (degreeAll L.S.cones : ℝ) * (L'.sigma * L'.mu)) :=
+  Solver.pass_complementarity_aggregated hS hp hint
+
+/-- [R] **The `μ` update of one accepted pass of the whole-solver model** — the full statement of
+`pass_mu_update_partial`: for every list of zero / nonnegative / second-order cones, at an interior
+iterate (`s = 0` on zero-cone rows), under the exactness hypotheses of `pass_is_newton_step`, with
+`(Δsᵃ, Δzᵃ)` the affine step of the same pass and `m` its Mehrotra factor (`PassAffineStep`),
+`C := m·Δsᵃ·Δzᵃ`, `Cκ := rhs.κ + σμ − τκ`,
+
+  `μ⁺ = (1 − α(1−σ)) μ − α (C + Cκ)/(ν+1) + α² (Δs·Δz + ΔτΔκ)/(ν+1)`. -/
+theorem pass_mu_update {st : Settings ℝ} {L L' : LoopSt ℝ} {n m : ℕ} (hS : PassShape L.S n m)
+    (hPt : L.S.data.P.isTriu = true) (hp : pass st L = .ok (true, L'))
+    (hτ : L.S.variables.τ ≠ 0)
+    (h1x : KktSystem.symMat L.S.data.P n *ᵥ toFn L'.S.kktsystem.x1 n
+        + (denseA L.S.data.A m n)ᵀ *ᵥ toFn L'.S.kktsystem.z1 m = toFn L'.S.stepRhs.x n)
+    (h1z : denseA L.S.data.A m n *ᵥ toFn L'.S.kktsystem.x1 n
+        - hsMat L'.S.cones m *ᵥ toFn L'.S.kktsystem.z1 m
+        = toFn L'.S.kktsystem.workConic m - toFn L'.S.stepRhs.z m)
+    (h2x : KktSystem.symMat L.S.data.P n *ᵥ toFn L'.S.kktsystem.x2 n
+        + (denseA L.S.data.A m n)ᵀ *ᵥ toFn L'.S.kktsystem.z2 m = -toFn L.S.data.q n)
+    (h2z : denseA L.S.data.A m n *ᵥ toFn L'.S.kktsystem.x2 n
+        - hsMat L'.S.cones m *ᵥ toFn L'.S.kktsystem.z2 m = toFn L.S.data.b m)
+    (hden : KktSystem.tauDen L.S.variables.κ L.S.variables.τ
+        (toFn L.S.data.q n ⬝ᵥ toFn L'.S.kktsystem.x2 n) (toFn L.S.data.b m ⬝ᵥ toFn L'.S.kktsystem.z2 m)
+        (((-1 : ℝ) • toFn L'.S.kktsystem.x2 n + (1 : ℝ) • ((1 / L.S.variables.τ) • toFn L.S.variables.x n)) ⬝ᵥ
+          KktSystem.symMat L.S.data.P n *ᵥ ((-1 : ℝ) • toFn L'.S.kktsystem.x2 n
+            + (1 : ℝ) • ((1 / L.S.variables.τ) • toFn L.S.variables.x n)))
+        (toFn L'.S.kktsystem.x2 n ⬝ᵥ KktSystem.symMat L.S.data.P n *ᵥ toFn L'.S.kktsystem.x2 n) ≠ 0)
+    (hint : ConesInterior L.S.cones L.S.variables.s.toList L.S.variables.z.toList) :
+    ∃ (dsA dzA : Fin m → ℝ) (mcorr : ℝ), PassAffineStep st L L' m dsA dzA mcorr
+      ∧ L'.mu = (toFn L.S.variables.s m ⬝ᵥ toFn L.S.variables.z m + L.S.variables.τ * L.S.variables.κ)
+          / ((degreeAll L.S.cones : ℝ) + 1)
+      ∧ L.S.variables.κ * L'.S.stepLhs.τ + L.S.variables.τ * L'.S.stepLhs.κ = -L'.S.stepRhs.κ
+      ∧ (toFn L'.S.variables.s m ⬝ᵥ toFn L'.S.variables.z m + L'.S.variables.τ * L'.S.variables.κ)
+          / ((degreeAll L.S.cones : ℝ) + 1)
+        = (1 - L'.alpha * (1 - L'.sigma)) * L'.mu
+          - L'.alpha * (mcorr * (dsA ⬝ᵥ dzA)
+              + (L'.S.stepRhs.κ + L'.sigma * L'.mu - L.S.variables.τ * L.S.variables.κ))
+              / ((degreeAll L.S.cones : ℝ) + 1)
+          + L'.alpha ^ 2 * (toFn L'.S.stepLhs.s m ⬝ᵥ toFn L'.S.stepLhs.z m + L'.S.stepLhs.τ * L'.S.stepLhs.κ)
+              / ((degreeAll L.S.cones : ℝ) + 1) := by
+  obtain ⟨dsA, dzA, mcorr, haff, hagg⟩ := Solver.pass_complementarity_aggregated hS hp hint
+  exact ⟨dsA, dzA, mcorr, haff,
+    pass_mu_update_partial hS hPt hp hτ h1x h1z h2x h2z hden (mcorr * (dsA ⬝ᵥ dzA)) hagg⟩
+
+/-- non-vacuity of the Round 7 theorems, part (a'): the interior-ness hypothesis is satisfiable
+together with the shape of the cones — zero cone (1 row), nonnegative cone (1 row), second-order
+cone (2 rows), `s = (0 | 4 | 2, 1)`, `z = (5 | 1 | 3, −1)` — and at that iterate the composite
+`update_scaling` returns `true` and leaves the Nesterov–Todd scalings (so the hypotheses of
+`scaling_succeeds_at_interior` and the conclusion of `pass_cones_are_nt` are consistent); accepted
+passes exist by part (a) above, the exactness hypotheses are satisfiable by part (b) -/
+example : ConesFull Solver.MuExample.cones ∧ numelAll Solver.MuExample.cones = 4
+    ∧ ConesInterior Solver.MuExample.cones Solver.MuExample.sL Solver.MuExample.zL
+    ∧ ∃ cones', Solver.updateScaling Solver.MuExample.cones Solver.MuExample.sL.toArray
+          Solver.MuExample.zL.toArray = .ok (true, cones')
+        ∧ NTCones cones' Solver.MuExample.sL Solver.MuExample.zL :=
+  ⟨Solver.MuExample.cones_full, Solver.MuExample.cones_numel, Solver.MuExample.cones_interior,
+    Solver.MuExample.cones_scaled⟩
+
+/-- non-vacuity, part (c): the block identities on a concrete second-order Nesterov–Todd state,
+`w = (1,(0))`, `η = 1`, `λ = (2,(1))`, `s = z = (2,(1))`: `Hs z = s`, `z·Δs_from_Δz_offset(d) = d₀`,
+`⟨e, λ∘λ⟩ = s·z = 5`, `⟨e, shift(Δz, Δs)⟩ = Δs·Δz − σμ` -/
+example (d0 d1 a0 a1 b0 b1 σμ : ℝ) :
+    NTBlock (.soc Solver.MuExample.ntK) [2, 1] [2, 1]
+    ∧ hs1L (.soc Solver.MuExample.ntK) [2, 1] = [2, 1]
+    ∧ hsDotL [2, 1] (off1L (.soc Solver.MuExample.ntK) [d0, d1] [2, 1]) = d0
+    ∧ hsDotL (coneId1L (.soc Solver.MuExample.ntK)) (ads1L (.soc Solver.MuExample.ntK)) = 5
+    ∧ hsDotL (coneId1L (.soc Solver.MuExample.ntK))
+        (shift1L (.soc Solver.MuExample.ntK) [a0, a1] [b0, b1] σμ).1 = b0 * a0 + b1 * a1 - σμ :=
+  ⟨Solver.MuExample.ntK_block, Solver.MuExample.ntK_identities d0 d1 a0 a1 b0 b1 σμ⟩
+
+/-- [F] **an accepted pass keeps `s = 0` on the zero-cone rows** (`Solver.ZeroConeRows`): there
+`Δs_const = 0` and `Hs = 0`, so the combined `Δs = −Δs_const − Hs Δz` vanishes and
+`s⁺ = s + αΔs = 0`.  No interior-ness, no exactness of the linear solves needed. -/
+theorem pass_keeps_zero_rows {st : Settings ℝ} {L L' : LoopSt ℝ} {n m : ℕ} (hS : PassShape L.S n m)
+    (hp : pass st L = .ok (true, L')) (hz : ZeroConeRows L.S.cones L.S.variables.s.toList) :
+    ZeroConeRows L'.S.cones L'.S.variables.s.toList :=
+  Solver.pass_zero_rows hS hp hz
+
+/-- [R] **the interior-ness hypothesis of `pass_mu_update` is an invariant of accepted passes**: if
+the iterate is in C07's interior `Solver.Interior` (`τ, κ > 0`, `z ∈ int K*`, `s ∈ int K` block by
+block — what `default_start()` establishes and every accepted step keeps, C07) with `s = 0` on the
+zero-cone rows, then the next iterate is again, for the rescaled cones, and `ConesInterior` holds at
+the start of the next pass (`0 < max_step_fraction < 1`, `T::max_value() > 0`). -/
+theorem pass_keeps_interior_hypothesis {st : Settings ℝ} {L L' : LoopSt ℝ} {n m : ℕ}
+    (hS : PassShape L.S n m) (hp : pass st L = .ok (true, L')) (h0 : 0 < st.maxStepFraction)
+    (h1 : st.maxStepFraction < 1) (hm : 0 < st.maxValue)
+    (hI : Solver.Interior (L.S.cones.map ConeSt.compSpec) L.S.variables)
+    (hz : ZeroConeRows L.S.cones L.S.variables.s.toList) :
+    Solver.Interior (L'.S.cones.map ConeSt.compSpec) L'.S.variables
+      ∧ ZeroConeRows L'.S.cones L'.S.variables.s.toList
+      ∧ ConesInterior L'.S.cones L'.S.variables.s.toList L'.S.variables.z.toList :=
+  Solver.pass_keeps_conesInterior hS hp h0 h1 hm hI hz
+
+/-- non-vacuity of `pass_keeps_zero_rows` / `pass_keeps_interior_hypothesis`: on the composite of
+part (a') the variables `s = (0 | 4 | 2, 1)`, `z = (5 | 1 | 3, −1)`, `τ = κ = 1` satisfy C07's
+`Solver.Interior` and `ZeroConeRows` (hence `ConesInterior`), and the settings hypotheses hold for
+`max_step_fraction = 0.99`, `max_value = 1` -/
+example : Solver.Interior (Solver.MuExample.cones.map ConeSt.compSpec) Solver.MuExample.vars
+    ∧ ZeroConeRows Solver.MuExample.cones Solver.MuExample.vars.s.toList
+    ∧ ConesInterior Solver.MuExample.cones Solver.MuExample.vars.s.toList Solver.MuExample.vars.z.toList
+    ∧ (0 : ℝ) < 0.99 ∧ (0.99 : ℝ) < 1 ∧ (0 : ℝ) < 1 :=
+  ⟨Solver.MuExample.vars_interior, Solver.MuExample.cones_zeroRows,
+    Solver.conesInterior_of_interior Solver.MuExample.vars_interior Solver.MuExample.cones_zeroRows,
+    by norm_num, by norm_num, by norm_num⟩
+
+/-- [F] **`default_start()` leaves `s = 0` on the zero-cone rows**: `symmetric_initialization` sets
+`s = _shift_to_cone_interior(s, primal = true)`, each branch of which ends in a
+`scaled_unit_shift(·, ·, true)` that writes zeros on a zero cone.  Whatever the two KKT calls
+returned; no shape hypothesis. -/
+theorem start_keeps_zero_rows {S S0 : SolverSt ℝ} {st : Settings ℝ} (h : S.defaultStart st = .ok S0) :
+    ZeroConeRows S0.cones S0.variables.s.toList :=
+  Solver.defaultStart_zero_rows h
+
+/-- [R] **the interior-ness hypothesis `hint` of `pass_mu_update` holds at the first pass**: for the
+solver object `DefaultSolver::new` returns, the iterate after `default_start()` is in C07's interior
+(`Solver.interior_initHyp`), has `s = 0` on the zero-cone rows, hence satisfies `ConesInterior`; by
+`pass_keeps_interior_hypothesis` it then holds at the start of every pass reached through accepted
+passes.  (`Solver.defaultStart_conesInterior` is the same for any sized state `SizedSt S`;
+`Solver.zeroConeRows_iff_zeroRows` identifies `ZeroConeRows` with the `ZeroRows` invariant C01/C02
+carry along the whole `solve()`.) -/
+theorem start_interior_hypothesis {P : Csc ℝ} {q : Array ℝ} {A : Csc ℝ} {b : Array ℝ}
+    {cones : List (ConeT ℝ)} {st : Settings ℝ} {perm : Array Nat} {S : Solver.Solver ℝ} {S0 : SolverSt ℝ}
+    (hnew : Solver.Solver.new P q A b cones st perm = .ok S) (h : S.st.defaultStart st = .ok S0) :
+    Solver.Interior (S0.cones.map ConeSt.compSpec) S0.variables
+      ∧ ZeroConeRows S0.cones S0.variables.s.toList
+      ∧ ConesInterior S0.cones S0.variables.s.toList S0.variables.z.toList :=
+  Solver.new_defaultStart_conesInterior hnew h
+
+/-- non-vacuity of `start_keeps_zero_rows` / `start_interior_hypothesis`, over ℝ: on the composite
+zero(1) / nonneg(1) / soc(2), `_shift_to_cone_interior(s = (7 | −3 | 0, 0), primal = true)` succeeds
+and its result is `0` on the zero-cone row; that `default_start()` (after `new`) succeeds is shown on
+the kernel-evaluable `Int` instance in the example of `default_start_ignores_flags` below
+(`Solver.InitExample.ds_exists`) -/
+example : ∃ s', Composite.shiftToConeInterior (Solver.MuExample.cones.map ConeSt.compSpec)
+      #[7, -3, 0, 0] true = .ok s' ∧ ZeroConeRows Solver.MuExample.cones s'.toList :=
+  Solver.MuExample.start_shift
 
 end pass
 
